@@ -1086,13 +1086,21 @@ func streamOut[O any](sr *schema.StreamReader[O], err error) POut {
 		o.Class, o.Msg = "err-item", err.Error()
 		return o
 	}
-	v, err := compose.VerifConcatStreamReader(schema.StreamReaderFromArray(cs))
+	// the delivered chunks are concatenated by the harness's own rule (concatAny: strings appended,
+	// maps key by key, recursively) - eino's concatStreamReader is part of what is being checked;
+	// its answer on the same chunks must be the same
+	v, err := concatAny(o.raw)
 	if err != nil {
 		// a stream without any chunk does not concatenate: not a value
 		o.Class, o.Msg = "err-item", "concat of the output stream: "+err.Error()
 		return o
 	}
-	o.Class, o.Val = "ok", fromGo(any(v))
+	o.Class, o.Val = "ok", fromGo(v)
+	if ev, eerr := compose.VerifConcatStreamReader(schema.StreamReaderFromArray(cs)); eerr != nil {
+		o.Class, o.Msg = "err-item", "eino's concatenation of the delivered chunks fails: "+eerr.Error()
+	} else if !vEqual(fromGo(any(ev)), o.Val) {
+		o.Class, o.Msg = "err-item", fmt.Sprintf("eino's concatenation of the delivered chunks gives %s, chunk by chunk they give %s", js(fromGo(any(ev))), js(o.Val))
+	}
 	return o
 }
 
